@@ -1,12 +1,18 @@
 import NoteSeqVerif.Common.Wire
-import NoteSeqVerif.Model.C17
+import NoteSeqVerif.Model.C17Heap
 /-! line-protocol driver for C17 (compiled; no Mathlib).
 
 request :  `<mode> <class-init…> ; <op…> ; <op…> …`     (mode `T` = observation after every
            operation, `F` = only after the last one)
-response:  `init <ok|Err>` then per operation ` ; <ok|Err> [observation]`.
-A failed operation leaves the current object as it was (`…Skip` functions of the model), exactly
-like the harness, which catches the exception and carries on with the same Python object. -/
+response:  `init <ok|Err>` then per operation ` ; <ok|Err> [observation of the current object]`,
+           then ` ; heap <number of objects> <index of the current one>` and ` # <observation>`
+           for every object of the heap, in creation order.
+A history works on a heap of objects (`Model/C17Heap.lean`): `sw k` switches to object `k`, a
+slice / deepcopy creates a new object and continues on it, and for lead sheets `sh a b` builds
+`LeadSheet(obj[a].melody, obj[b].chords)`, `mo <op>` / `co <op>` call an in-place method of the
+current lead sheet's melody / chords object directly.  A failed operation leaves every object as it
+was (`…Skip` functions of the model), exactly like the harness, which catches the exception and
+carries on with the same Python objects. -/
 open NSV NSV.Wire NSV.C17
 
 class Ev (α : Type) where
@@ -86,6 +92,7 @@ def pOp {α} [Ev α] : P (Op α) := do
   | "a" => do let e ← pEv; pure (.append e)
   | "sl" => do let n ← P.int; let fl ← P.bool; pure (.setLength n fl)
   | "sc" => do let i ← pOptInt; let j ← pOptInt; pure (.slice i j)
+  | "sk" => do let i ← pOptInt; let j ← pOptInt; let k ← P.int; pure (.sliceStep i j k)
   | "ir" => do let k ← P.int; let f ← pOptEv; pure (.incRes k f)
   | "dc" => pure .deepcopy
   | "ri" => do
@@ -95,29 +102,47 @@ def pOp {α} [Ev α] : P (Op α) := do
   | "rs" => pure .reset
   | _ => failure
 
-/-- generic history runner: `stp` = model step, `obs` = observation -/
-def runHist {σ ο} (trace : Bool) (pop : P ο) (stp : σ → ο → Except Err σ) (skip : σ → ο → σ)
-    (obs : σ → String) (s0 : σ) (ops : List (List String)) : String :=
+/-- generic history runner: `stat` = exception status of one operation, `skip` = state after it,
+`obs` = observation of the current object, `dump` = the whole heap -/
+def runHist {σ ο} (trace : Bool) (pop : P ο) (stat : σ → ο → Except Err Unit) (skip : σ → ο → σ)
+    (obs : σ → String) (dump : σ → String) (s0 : σ) (ops : List (List String)) : String :=
   let n := ops.length
   let rec go (s : σ) (k : Nat) (acc : String) : List (List String) → String
-    | [] => acc
+    | [] => acc ++ " ; " ++ dump s
     | o :: rest =>
         match runToks pop o with
         | none => acc ++ " ; bad-op"
         | some op =>
             let s' := skip s op
-            let st := match stp s op with
+            let st := match stat s op with
               | .ok _ => "ok"
               | .error e => e.name
             let shown := if trace || k + 1 = n then " " ++ obs s' else ""
             go s' (k + 1) (acc ++ " ; " ++ st ++ shown) rest
   go s0 0 ("init ok" ++ (if trace || n = 0 then " " ++ obs s0 else "")) ops
 
+def pHOp {ο} (pop : P ο) : P (HOp ο) := fun ts =>
+  match ts with
+  | "sw" :: rest => (do let k ← P.nat; pure (HOp.switch k) : P (HOp ο)) rest
+  | _ => (do let o ← pop; pure (HOp.op o) : P (HOp ο)) ts
+
+def obsCur {σ} (obs : σ → String) (h : Heap σ) : String :=
+  match h.objs[h.cur]? with
+  | some s => obs s
+  | none => "no-object"
+
+def dumpHeap {σ} (obs : σ → String) (h : Heap σ) : String :=
+  s!"heap {h.objs.length} {h.cur}" ++ String.join (h.objs.map (fun s => " # " ++ obs s))
+
+def runHeap {σ ο} (trace : Bool) (pop : P ο) (m : Sem σ ο) (obs : σ → String) (s0 : σ)
+    (ops : List (List String)) : String :=
+  runHist trace (pHOp pop) (hstatus m) (hskip m) (obsCur obs) (dumpHeap obs) ⟨[s0], 0⟩ ops
+
 def simpleFamily {α} [Ev α] (trace : Bool) (c : Cls α) (init : List String) (ops : List (List String)) : String :=
   match runToks (pSeqInit c) init with
   | none => "bad-op"
   | some (.error e) => s!"init {e.name}"
-  | some (.ok s) => runHist trace pOp (step c) (stepSkip c) obsSeq s ops
+  | some (.ok s) => runHeap trace pOp (seqSem c) obsSeq s ops
 
 /-! ### lead sheet -/
 def obsLead (l : LeadSheet) : String :=
@@ -140,6 +165,7 @@ def pLOp : P LOp := do
   | "a" => do let m ← P.int; let c ← P.next; pure (.append m c)
   | "sl" => do let n ← P.int; pure (.setLength n)
   | "sc" => do let i ← pOptInt; let j ← pOptInt; pure (.slice i j)
+  | "sk" => do let i ← pOptInt; let j ← pOptInt; let k ← P.int; pure (.sliceStep i j k)
   | "ir" => do let k ← P.int; pure (.incRes k)
   | "dc" => pure .deepcopy
   | "in" => do
@@ -148,6 +174,25 @@ def pLOp : P LOp := do
       pure (.init mev ms mb mq cev cs cb cq)
   | "rs" => pure .reset
   | _ => failure
+
+def pSOp : P SOp := fun ts =>
+  match ts with
+  | "sw" :: rest => (do let k ← P.nat; pure (SOp.switch k) : P SOp) rest
+  | "sh" :: rest => (do let a ← P.nat; let b ← P.nat; pure (SOp.share a b) : P SOp) rest
+  | "mo" :: rest => (do let o ← pOp (α := Int); pure (SOp.melody o) : P SOp) rest
+  | "co" :: rest => (do let o ← pOp (α := String); pure (SOp.chords o) : P SOp) rest
+  | _ => (do let o ← pLOp; pure (SOp.lead o) : P SOp) ts
+
+def obsLeadAt (st : LStore) (k : Nat) : String :=
+  match st.view k with
+  | some l => obsLead l
+  | none => "no-object"
+
+def obsCurLead (st : LStore) : String := obsLeadAt st st.cur
+
+def dumpStore (st : LStore) : String :=
+  s!"heap {st.leads.length} {st.cur}" ++
+    String.join ((List.range st.leads.length).map (fun k => " # " ++ obsLeadAt st k))
 
 /-! ### pianoroll -/
 def obsRoll (r : Roll) : String :=
@@ -187,6 +232,30 @@ def pPOp : P POp := do
   | "dc" => pure .deepcopy
   | _ => failure
 
+/-! ### note performance -/
+instance : Ev NEvent where
+  parse s := match (s.splitOn ",").mapM String.toInt? with
+    | some [a, b, c, d] => some ⟨a, b, c, d⟩
+    | _ => none
+  render e := s!"{e.shift},{e.pitch},{e.vel},{e.dur}"
+
+def obsNPerf (p : NPerf) : String :=
+  obsCommon s!"{p.len} {p.start} {p.stop} {p.numSteps} {p.maxShift}" p.len p.events p.index p.steps
+
+def pNPerfInit : P (Except Err NPerf) := do
+  let start ← P.int; let mx ← P.int
+  pure (.ok ⟨[], start, mx⟩)
+
+def pNOp : P NOp := do
+  let t ← P.next
+  match t with
+  | "a" => do let e ← pEv; pure (.append e)
+  | "ab" => pure .appendBad
+  | "sl" => do let n ← P.int; let fl ← P.bool; pure (.setLength n fl)
+  | "tr" => do let n ← P.int; pure (.truncate n)
+  | "dc" => pure .deepcopy
+  | _ => failure
+
 def dispatch (trace : Bool) (cls : String) (init : List String) (ops : List (List String)) : String :=
   match cls with
   | "simple" => match init with
@@ -200,15 +269,19 @@ def dispatch (trace : Bool) (cls : String) (init : List String) (ops : List (Lis
   | "lead" => match runToks pLeadInit init with
       | none => "bad-op"
       | some (.error e) => s!"init {e.name}"
-      | some (.ok l) => runHist trace pLOp lstep lstepSkip obsLead l ops
+      | some (.ok l) => runHist trace pSOp sstatus sskip obsCurLead dumpStore (LStore.single l) ops
   | "roll" => match runToks pRollInit init with
       | none => "bad-op"
       | some (.error e) => s!"init {e.name}"
-      | some (.ok r) => runHist trace pROp rstep rstepSkip obsRoll r ops
+      | some (.ok r) => runHeap trace pROp rollSem obsRoll r ops
   | "perf" => match runToks pPerfInit init with
       | none => "bad-op"
       | some (.error e) => s!"init {e.name}"
-      | some (.ok p) => runHist trace pPOp pstep pstepSkip obsPerf p ops
+      | some (.ok p) => runHeap trace pPOp perfSem obsPerf p ops
+  | "nperf" => match runToks pNPerfInit init with
+      | none => "bad-op"
+      | some (.error e) => s!"init {e.name}"
+      | some (.ok p) => runHeap trace pNOp nperfSem obsNPerf p ops
   | _ => "bad-op"
 
 def step' (line : String) : String :=
